@@ -558,7 +558,11 @@ pub(crate) fn add_mapping_pop<W, R, T>(
             rt.can_allocate((mapping.len - 1) * 2 * size_of::<usize>())?;
             let mut new_dict = HashMap::from_iter(mapping.inner.iter().filter(|(k, _)| k != &&hash_key).map(|(k, b)| (*k, b.clone())));
             let old_bucket = &mapping.inner[&hash_key];
-            new_dict.insert(hash_key, old_bucket.iter().take(idx).chain(old_bucket.iter().skip(idx + 1)).cloned().collect());
+            let new_bucket: Vec<_> = old_bucket.iter().take(idx).chain(old_bucket.iter().skip(idx + 1)).cloned().collect();
+            // an empty bucket would make the hash differ from that of an equal collection
+            if !new_bucket.is_empty() {
+                new_dict.insert(hash_key, new_bucket);
+            }
             Ok(manage_native!(
                         XMapping::new(mapping.hash_func.clone(), mapping.eq_func.clone(), new_dict, mapping.len-1),
                         rt
@@ -589,7 +593,11 @@ pub(crate) fn add_mapping_discard<W, R, T>(
             rt.can_allocate((mapping.len - 1) * 2* size_of::<usize>())?;
             let mut new_dict = HashMap::from_iter(mapping.inner.iter().filter(|(k, _)| k != &&hash_key).map(|(k, b)| (*k, b.clone())));
             let old_bucket = &mapping.inner[&hash_key];
-            new_dict.insert(hash_key, old_bucket.iter().take(idx).chain(old_bucket.iter().skip(idx + 1)).cloned().collect());
+            let new_bucket: Vec<_> = old_bucket.iter().take(idx).chain(old_bucket.iter().skip(idx + 1)).cloned().collect();
+            // an empty bucket would make the hash differ from that of an equal collection
+            if !new_bucket.is_empty() {
+                new_dict.insert(hash_key, new_bucket);
+            }
             Ok(manage_native!(
                         XMapping::new(mapping.hash_func.clone(), mapping.eq_func.clone(), new_dict, mapping.len-1),
                         rt
